@@ -701,12 +701,42 @@ pub fn site_of(msg: &str) -> u64 {
             }
         }
     }
+    // sites told apart by the source text at the panic location
+    let window = src_window(msg, 2);
     if msg.contains("left == right") || msg.contains("left: ") {
+        if window.contains("self.term, m.term") {
+            return 2023;
+        }
         if msg.contains("raft.rs") {
-            return 2011; // assert_eq!(last_index, self.raft_log.persisted) is the only assert_eq in raft.rs reachable
+            return 2011; // assert_eq!(last_index, self.raft_log.persisted)
         }
     }
+    if msg.contains("index out of bounds") && msg.contains("raft.rs") && window.contains("entries") && window.contains("[0]") {
+        return 2020;
+    }
+    if msg.contains("attempt to subtract with overflow") && window.contains("next_idx - 1") {
+        return 2026;
+    }
+    if std::env::var("VERIF_UNKNOWN_PANICS").is_ok() {
+        eprintln!("unknown panic: {} | window: {}", msg, window);
+    }
     9999
+}
+
+/// The source lines around the location a panic message (`… @ file:line`) names.
+fn src_window(msg: &str, before: usize) -> String {
+    if let Some(loc) = msg.split(" @ ").last() {
+        let mut it = loc.rsplitn(2, ':');
+        let line: usize = it.next().and_then(|x| x.parse().ok()).unwrap_or(0);
+        let file = it.next().unwrap_or("");
+        if let Ok(text) = std::fs::read_to_string(file) {
+            let lines: Vec<&str> = text.lines().collect();
+            let lo = line.saturating_sub(1 + before).min(lines.len());
+            let hi = (line + 1).min(lines.len());
+            return lines[lo..hi].join(" ");
+        }
+    }
+    String::new()
 }
 
 /// Per-node driver state the calls need besides the RawNode itself.
